@@ -62,6 +62,9 @@ enum Scope {
     None,
     HostA, // "^a\\."
     HostB, // "^b\\."
+    /// the plain host name "a.example" as the example configuration writes it: still a pattern (the dot
+    /// matches any character) that is searched for anywhere in the name the player connected with
+    Literal,
 }
 
 #[derive(Clone, Debug, PartialEq)]
@@ -95,6 +98,7 @@ fn to_cfg_filter(f: &Filter) -> cfg::OptionFilterAdapter {
         Scope::None => None,
         Scope::HostA => Some("^a\\.".to_string()),
         Scope::HostB => Some("^b\\.".to_string()),
+        Scope::Literal => Some("a.example".to_string()),
     };
     let lists = |l: &Lists| {
         (
@@ -181,6 +185,11 @@ fn scope_applies(s: Scope, host: &str) -> bool {
         Scope::None => true,
         Scope::HostA => host.starts_with("a."),
         Scope::HostB => host.starts_with("b."),
+        Scope::Literal => {
+            let c: Vec<char> = host.chars().collect();
+            let tail: Vec<char> = "example".chars().collect();
+            (0..c.len()).any(|i| c[i] == 'a' && c.get(i + 1).is_some_and(|d| *d != '\n') && c.len() >= i + 2 + tail.len() && c[i + 2..i + 2 + tail.len()] == tail[..])
+        }
     }
 }
 
@@ -491,7 +500,7 @@ fn kinds(max_rules: usize) -> Vec<Kind> {
 fn filters(max_rules: usize) -> Vec<Filter> {
     let mut v = vec![];
     for kind in kinds(max_rules) {
-        for scope in [Scope::None, Scope::HostA, Scope::HostB] {
+        for scope in [Scope::None, Scope::HostA, Scope::HostB, Scope::Literal] {
             v.push(Filter { scope, kind: kind.clone() });
         }
     }
@@ -654,7 +663,10 @@ pub fn run(cli: Cli) -> ! {
     let players = [P, Q, PQ];
     // the same adapter instance is asked about these hosts one after the other; two of them differ only in
     // case (the host scopes are the case-sensitive patterns ^a\. and ^b\.), in both orders
-    let hosts = ["a.example", "A.EXAMPLE", "b.example", "a.example", "B.example", "b.example", "A.example"];
+    // the last four contain the plain host name "a.example" of the fourth scope without being equal to it
+    // (a subdomain, the name with the marker a modded client appends, the fully qualified spelling) or match
+    // it only as a pattern
+    let hosts = ["a.example", "A.EXAMPLE", "b.example", "a.example", "B.example", "b.example", "A.example", "eu.a.example", "a.example\0FML3\0", "a.example.", "axexample"];
 
     // (a) single filters (meta with <= 2 rules, allow, block; all scopes) x target lists x players x hosts, default strategy
     let singles = filters(2);
@@ -674,7 +686,7 @@ pub fn run(cli: Cli) -> ! {
     // (b) chains of two filters from the reduced menu (meta with <= 1 rule, allow, block; all scopes)
     let menu = filters(1);
     let tl_pair = lists_of(&shapes, if thorough { 2 } else { 1 });
-    let menu2: Vec<Filter> = if thorough { menu.clone() } else { menu.iter().filter(|f| f.scope != Scope::HostB).cloned().collect() };
+    let menu2: Vec<Filter> = if thorough { menu.clone() } else { menu.iter().filter(|f| f.scope != Scope::HostB && f.scope != Scope::Literal).cloned().collect() };
     par_for(menu.len(), |ai| {
         for bf in &menu2 {
             let chain = vec![menu[ai].clone(), bf.clone()];
@@ -768,7 +780,7 @@ pub fn run(cli: Cli) -> ! {
     rep.set("single_filters", json!(singles.len()));
     rep.set("pair_menu", json!(menu.len()));
     rep.set("exhaustive", json!(true));
-    rep.set("rule", json!("full product: every single filter (meta with 0-2 rules over 16 rule shapes, allow/block with 36 list shapes, 3 host scopes) x target lists x 3 players x 5 host spellings (two pairs differing only in case, asked one after the other on the same adapter instance in both orders); every ordered pair from the reduced menu; strategies (any, player_fill x 2 fields x 5 capacities) x target lists with 8-10 count spellings behind 3 chains; 9 YAML configurations through the config crate. Each case is distinct by construction; non-trivial = the chain removed some but not all targets, or the player was refused."));
+    rep.set("rule", json!("full product: every single filter (meta with 0-2 rules over 16 rule shapes, allow/block with 36 list shapes, 4 host scopes: none, two anchored patterns, one plain host name) x target lists x 3 players x 9 host spellings (two pairs differing only in case, asked one after the other on the same adapter instance in both orders; a subdomain, a modded client's marker and the fully qualified spelling of the plain host name, and a name that matches it only as a pattern); every ordered pair from the reduced menu; strategies (any, player_fill x 2 fields x 5 capacities) x target lists with 8-10 count spellings behind 3 chains; 9 YAML configurations through the config crate. Each case is distinct by construction; non-trivial = the chain removed some but not all targets, or the player was refused."));
     rep.sample(json!({"chain": "[meta k equals v @host ^a\\.]", "targets": ["{k:v}", "{k:w,j:v}"], "player": "pa", "host": "a.example", "expect": "first eligible = #0"}));
     rep.sample(json!({"strategy": "player_fill(players, max=2)", "targets": ["{players:1}", "{players:2}", "{players:x}"], "expect": "#0 (fullest below capacity) under every reading"}));
     rep.sample(json!({"chain": "[allow usernames=[aq] ids=[uuid_p]] + [block regex q$]", "player": "aq", "expect": "refused"}));
